@@ -6,6 +6,7 @@ import GenjaxModel.Model.StateIO
 import GenjaxModel.Model.HmmIO
 import GenjaxModel.Model.SeedIO
 import GenjaxModel.Model.LoweringIO
+import GenjaxModel.Model.McmcIO
 /-! Line-protocol driver: one S-expression per input line, one per output line. -/
 open Genjax
 
@@ -35,6 +36,9 @@ def dispatch (e : SExp) : SExp :=
   | some r => r
   | none =>
   match stepLowering e with
+  | some r => r
+  | none =>
+  match stepMcmc e with
   | some r => r
   | none => .list [.atom "bad-op"]
 
